@@ -94,7 +94,7 @@ def run(tier, seed, replay=None):
                 samples.append({"kind": "lock-step behaviour (Backlog actions)", "steps": steps[0][:12]})
             validate_trace(sc, verdict, trace, 2 * UNIT[backend], "replay-" + backend, stats)
         # (B) free runs
-        free = [("mem", 1, 4096), ("mem", 8192, 8192)] + ([("mem", 20000, 20480), ("file", 1, 4 * 1024 * 1024)] if thorough else [])
+        free = [("mem", 1, 4096), ("mem", 12288, 12288)] + ([("mem", 8192, 8192), ("mem", 20000, 20480), ("file", 1, 4 * 1024 * 1024), ("file", 9 * 1024 * 1024, 12 * 1024 * 1024)] if thorough else [])
         nruns = 0
         for backend, size, cap in free:
             trace = sc.path("free-%s-%d.ndjson" % (backend, cap))
